@@ -153,6 +153,8 @@ func (language *Language) CompilerPasses() compiler.Passes {
 		&compiler.AnonymousEnumToExplicitType{},
 		&compiler.PrefixEnumValues{},
 		&compiler.FlattenDisjunctions{},
+		// flattening can leave `T | null` behind
+		&compiler.DisjunctionWithNullToOptional{},
 		&compiler.DisjunctionOfAnonymousStructsToExplicit{},
 		&compiler.DisjunctionInferMapping{},
 		&compiler.UndiscriminatedDisjunctionToAny{},
